@@ -16,6 +16,16 @@ CHECKS["C01"] = dict(level="model_checking", engine="E1", ref="§2.1, §5 C01",
    text="Breadth-first search whose states are the distinct Go representations of data values (every construction path of every set of <=2 (quick) / <=3 (thorough) members over a 36-member alphabet with forced index/key collisions, plus operator results) and whose transitions are | & &~ ~~, the 12 subset comparisons, with/without/<:/!<:, count, where, => and ^ applied to live values; each result is compared by denotation with the model and re-checked for self-consistency (count = members, Has agrees with enumeration). Exhaustive within the stated universe and generation bound.",
    note="Values outside the alphabet and beyond the generation bound are not covered; in the quick tier generation 1 is restricted to one state per (shape class, producing operator). Failures inside three known-broken regions (superimposed items, multi-valued dict keys, byte arrays with gaps) are grouped per region, so a change that only adds failures of an already listed kind inside such a region is not distinguished.")
 
+CHECKS["C02"] = dict(level="model_checking", engine="E1", ref="§5 C02",
+   technique="explicit-state search over reachable value representations; every ordered pair of states is tested for a = b, set collapse and membership against equality of denotations, and every pair of twins for identical hash, repr, dict-key behaviour and operator results",
+   text="States are the distinct Go representations of data values reached from every construction path of every set of <=2 members over the member alphabet, sugar literals, tuples built by +> and :>, and one generation of operator results. For every ordered pair, a = b, a != b, {a,b} count and b <: {a} must agree with equality of denotations; twins must hash and print identically, select the same dict entry and give denotation-equal results under 11 binary operators on either side against every small third operand. Exhaustive over the stated space.",
+   note="Relations with more than two attributes and join-produced column orders are covered by C04's equality oracle, not here; the quick tier expands one generation-1 state per (shape class, operator) and uses the first 60 third operands.")
+
+CHECKS["C03"] = dict(level="model_checking", engine="E1", ref="§5 C03",
+   technique="exhaustive exploration of branching operation histories (depth 2, every ordered pair of 57 derivations from every state of the reachable-representation space) on live values, with a full representation dump of every live value re-compared after every step",
+   text="For every non-empty state p of the representation space and every ordered pair (d1,d2) of 57 derivations (with/removal at and beyond both ends, ++, |, >>, =>, offsets, joins adding 1-2 columns, //seq helpers, ...rest patterns): c1=d1(p), c2=d2(p), c3=d2(c1); the dumps (slices, offsets, capacity flags, rows, headings) of p, c1 and the four most recent results must be unchanged after every step, and `let`-bound names must denote the same value before and after sibling derivations. Any change is a violation; no expected values are needed.",
+   note="History depth is 2 (parent, child, grandchild/sibling) and only the four most recent siblings are re-checked; storage not visible in the dump (frozen's internal nodes) is trusted.")
+
 NOT_YET = {
 }
 
